@@ -180,9 +180,9 @@ func (h *c05HostProg) describe() map[string]any {
 type c05Witness struct {
 	Name   string
 	Region string
-	Child  bool   // run yaegi in a child process
-	Src    string // package main
-	Expect string // yaegi's output on the unchanged tree (stdout + "\x00" + end); "host-crash" matches any host crash
+	Child  bool     // run yaegi in a child process
+	Src    string   // package main
+	Expect string   // yaegi's output on the unchanged tree (stdout + "\x00" + end); "host-crash" matches any host crash
 	Univ   *c05Univ // optional: the witness' declarations as a universe, with the selector it exercises
 	SelT   int
 	SelN   string
